@@ -53,7 +53,7 @@ def run(chk):
                 "special spellings; distinct by (cs, version, name)")
     chk.assumptions = ["Url::join / FilesystemTransport treat a percent-encoded single segment as itself "
                        "(exercised end-to-end by the C05/C10/C19 checks, not proved)"]
-    chk.proof, fails = C.proof_gate("C16", THEOREMS)
+    chk.proof, fails = C.proof_gate("C16")
     for f in fails:
         chk.broken(f, {"theorem_gate": f})
     C.ensure_harness()
